@@ -19,6 +19,58 @@ from . import tape
 from .recgen import RecordingGenerator, bitgen_fingerprint
 
 
+class ProcServers:
+    """Persistent real worker processes of this interpreter (fresh interpreters, started on first use)."""
+
+    def __init__(self):
+        self.procs = {}
+        self.requests = {}
+
+    def get(self, k):
+        import atexit
+        import os
+        import subprocess
+        import sys
+
+        p = self.procs.get(k)
+        if p is None or p.poll() is not None:
+            env = dict(os.environ)
+            env["PYTHONHASHSEED"] = str(9000 + k)
+            p = subprocess.Popen([sys.executable, "-m", "sim.procworker"], stdin=subprocess.PIPE, stdout=subprocess.PIPE, stderr=subprocess.DEVNULL, env=env,
+                                 cwd=os.path.dirname(os.path.dirname(os.path.abspath(__file__))))
+            self.procs[k] = p
+            self.requests[k] = 0
+            if len(self.procs) == 1:
+                atexit.register(self.stop)
+        return p
+
+    def call(self, k, payload):
+        import struct
+
+        p = self.get(k)
+        self.requests[k] += 1
+        p.stdin.write(struct.pack("<Q", len(payload)))
+        p.stdin.write(payload)
+        p.stdin.flush()
+        hdr = p.stdout.read(8)
+        if len(hdr) < 8:
+            raise PoolBroken("worker process %d died" % k)
+        (n,) = struct.unpack("<Q", hdr)
+        return p.stdout.read(n)
+
+    def stop(self):
+        for p in self.procs.values():
+            try:
+                p.stdin.close()
+                p.kill()
+            except Exception:  # noqa: BLE001
+                pass
+        self.procs = {}
+
+
+PROC_SERVERS = ProcServers()
+
+
 class InjectedFault(Exception):
     """Base marker for exceptions planted by the simulator."""
 
@@ -62,7 +114,10 @@ class Decider:
         p_dill = self.profile.get("p_dill", 0.02)
         p_shared = self.profile.get("p_shared", 0.3)
         x = r.random()
-        if x < p_dill:
+        p_proc = self.profile.get("p_proc", 0.0)
+        if x < p_proc:
+            transport = "proc"
+        elif x < p_proc + p_dill:
             transport = "dill"
         elif x < p_dill + p_shared:
             transport = "shared"
@@ -73,7 +128,7 @@ class Decider:
             chunks = [n_tasks] if n_tasks else []
         else:
             mode = r.choice(["ones", "real", "random", "random"])
-            if transport == "dill":
+            if transport in ("dill", "proc"):
                 mode = r.choice(["real", "two"])  # few chunks: every dill.loads re-evaluates pytensor graphs
             if mode == "ones":
                 chunks = [1] * n_tasks
@@ -186,6 +241,7 @@ class SimPool:
         self.map_calls = []  # one dict per map call: decoded tasks, fingerprints, decision
         self.closed = False
         self.fired = []
+        self.profile_servers = int((getattr(decider, "profile", None) or {}).get("proc_servers", 2))
         self.stats = {"maps": 0, "chunks": 0, "tasks": 0, "transport": {}, "reordered": 0, "lazy": 0, "dill_multi_task_chunk": 0}
 
     # executor calls this before each op
@@ -231,6 +287,10 @@ class SimPool:
         n = len(tasks)
         fname = getattr(func, "__name__", repr(func))
         decision = self.decider.decide(key, n, self.size)
+        if decision["transport"] == "proc" and (self._fault_for("worker", map=midx) is not None or self._fault_for("dill", map=midx) is not None):
+            # worker / serialisation faults are modelled on the in-process copying transport
+            decision = dict(decision, transport="dill")
+            self.decider.taken[key] = decision
         # ---- monitor: record what crosses the seam
         decoded = []
         for i, t in enumerate(tasks):
@@ -355,6 +415,20 @@ class SimPool:
                     chunk = [self._wrap_copy(t, key, lo + j) for j, t in enumerate(chunk)]
                     for j, t in enumerate(chunk):
                         results[lo + j] = _roundtrip(self._run_task(f2, t, call, key, midx, lo + j, worker))
+                elif transport == "proc":
+                    import dill
+
+                    payload = dill.dumps((func, tasks[lo:hi]))
+                    reply = dill.loads(PROC_SERVERS.call(worker % max(1, self.profile_servers), payload))
+                    self.stats["proc_chunks"] = self.stats.get("proc_chunks", 0) + 1
+                    if reply[0] == "ok":
+                        for j, rr in enumerate(reply[1]):
+                            results[lo + j] = rr
+                            call["executed"].append(lo + j)
+                        if self.log is not None:
+                            self.log.add("chunk-exec", key, {"chunk": ci, "worker": worker, "transport": "proc"}, [x for x in reply[1] if isinstance(x, np.ndarray)])
+                    else:
+                        raise reply[1]
                 else:
                     raise ValueError(transport)
             except BaseException as e:  # noqa: BLE001 - a pool forwards whatever the worker raised
